@@ -18,6 +18,8 @@ def errStr : MErr → String
   | .oddPieces => "odd-pieces" | .oddPiece => "odd-piece" | .both => "both"
   | .neither => "neither" | .noPath => "no-path" | .badFileLength => "bad-file-length"
   | .tooLarge => "too-large" | .wrongHashes => "wrong-hashes" | .noName => "no-name"
+  | .badFilePath => "bad-file-path" | .dupPath => "dup-path" | .fileIsDir => "file-is-dir"
+  | .badName => "bad-name"
 
 def resStr : Res Geom → String
   | .err e => "err " ++ errStr e
